@@ -724,14 +724,18 @@ def check_C16(chk, tier):
         if not q: hbc += [(rd, 3, 4, 0, pi, pi, vv, 0, 0, None, None) for pi in I for vv in V] + [(rd, 9, 10, 0, "i10x8", "i10x8", "e20x4", 0, 0, None, None), (rd, 9, 12, 0, "i8x10", "i2x40", "e16x5", 0, 0, None, None), (rd, 4, 6, 0, "i5x2", "i5x2", "e26x1", 0, 0, None, None)]
     hbc += [("hb", 3, 4, 0, "i5x2", "i4x3", "e20x2", 1, 0, None, None), ("hb", 3, 4, 0, "i5x2", "i4x3", "e20x2", 0, 1, None, None), ("hb", 9, 9, 0, "i10x8", "i10x8", "e20x4", 0, 0, None, None),
             ("hb", 3, 5, 1, "i5x16", "i5x16", "e16x5", 1, 0, (1, 4, 5, 6), (1, 2, 3, 3, 3))]
+    # rectangular files (type ?RA): NROW != NCOL, both orientations
+    rect = [("hb", 4, 5, 2, "i5x2", "i4x3", "e20x2"), ("hb", 2, 4, 4, "i5x16", "i5x16", "e15x5"), ("rb", 4, 5, 2, "i5x2", "i4x3", "e20x2"), ("rb", 2, 3, 5, "i3x1", "i5x2", "d20x4"), ("hb", 5, 6, 3, "i2x40", "i10x8", "f10x8")]
     HBFLAGS = e1.BASE_FLAGS + ["--max-field-sensitivity-array-size", "128", "--object-bits", "12"]
     for prec in (["d", "z"] if q else list("dszc")):
         P = "-DPREC_" + prec.upper(); mem = [REPO + "/SRC/%smemory.c" % prec, REPO + "/SRC/memory.c"] + ([REPO + "/SRC/%s" % {"z": "dcomplex.c", "c": "scomplex.c"}[prec]] if prec in "zc" else [])
-        for ci, (rd, n, nnz, sym, pi, ii, vv, rhs, pat_only, cp, ri) in enumerate(dict.fromkeys(hbc)):
+        for ci, (rd, n, nnz, sym, pi, ii, vv, rhs, pat_only, cp, ri) in enumerate(list(dict.fromkeys(hbc)) + [(rd_, n_, nnz_, 0, pi_, ii_, vv_, 0, 0, None, ("nrow", nr_)) for (rd_, n_, nnz_, nr_, pi_, ii_, vv_) in rect]):
+            nrow = None
+            if ri and ri[0] == "nrow": nrow = ri[1]; ri = None
             if prec in "zc" and q and ci % 2: continue
-            nm = "c16_%sread%s_n%d_e%d_%s_%s_%s_%s%s%s" % (prec, rd, n, nnz, ("sym%d" % ci) if sym else "gen", pi, ii, vv, "_rhs" if rhs else "", "_pat" if pat_only else "")
+            nm = "c16_%sread%s_n%d_e%d_%s_%s_%s_%s%s%s%s" % (prec, rd, n, nnz, ("sym%d" % ci) if sym else "gen", pi, ii, vv, "_rhs" if rhs else "", "_pat" if pat_only else "", ("_rows%d" % nrow) if nrow else "")
             cdir = os.path.join(chk.scratch, "hbcase", nm)
-            hbgen.write_case(cdir, reader=rd, n=n, nnz=nnz, sym=bool(sym), cplx=prec in "zc", ptr=I[pi], ind=I[ii], val=V[vv], rhscrd=rhs, pattern_only=bool(pat_only))
+            hbgen.write_case(cdir, reader=rd, n=n, nnz=nnz, sym=bool(sym), cplx=prec in "zc", ptr=I[pi], ind=I[ii], val=V[vv], rhscrd=rhs, pattern_only=bool(pat_only), nrow=nrow)
             nval = 0 if pat_only else (2 * nnz if prec in "zc" else nnz); big = 2 * nnz + n + 6
             uws = {"fgets.0": 101, "%sDumpLine.0" % prec: 90, "field_len.0": 30, "parse_int.0": 24, "parse_int.1": 24, "__isoc99_fscanf.0": 4, "__isoc99_fscanf.1": 22, "atoi.0": n + 3, "atoi.1": nnz + 2, "atof.0": nval + 2, "atof.1": V[vv][1] + 2,
                    "%sParseIntFormat.0" % prec: 24, "%sParseIntFormat.1" % prec: 24, "%sParseFloatFormat.0" % prec: 24, "%sParseFloatFormat.1" % prec: 24, "%sParseFloatFormat.2" % prec: 24,
@@ -780,7 +784,8 @@ def check_C15(chk, tier):
                 if n <= 4 and C.structural_rank(n, n, C.hole(n, j)) == n: cs.append(icase(n, C.hole(n, j), symcols=0, dropmode=0, tune="t111", tiny=1 << (j - 1), colperm=4, permidx=3 if n == 3 else 9))
         for n, pat in ((3, 511), (3, C.band(3, 1, 1)), (4, C.band(4, 1, 1)), (5, C.dense(5, 5)), (6, C.band(6, 2, 2))):
             for tn in ("t111", "t212"): cs.append(icase(n, pat, symcols=0, dropmode=1, tune=tn, milu=n % 4)); cs.append(icase(n, pat, symcols=0, dropmode=2, tune=tn, trans=1, colperm=4, permidx=3))
-        run_phase(chk, "gsisx/" + prec, H + "h_ilu.c", list(dict.fromkeys(cs)), ["C15."], prec=prec, budget_s=200 if q else 1500, validate_samples=0, path_timeout=40 if q else 600, key_extra=lambda c: {"has_symbolic_column": str(int(c[10] != 0))}, qtimeout_ms=5000 if q else 60000, env=CPLX_ENV if prec in "zc" else None,
+        run_phase(chk, "gsisx/" + prec, H + "h_ilu.c", list(dict.fromkeys(cs)), ["C15."], prec=prec, crash_is_violation=True, crash_filter=lambda c: int(c[10]) == 0,   # concrete-matrix cases: one deterministic path, a crash there is a breakdown; crashes on symbolic-column paths are listed as inconclusive (see DESIGN 10)
+                  budget_s=200 if q else 1500, validate_samples=0, path_timeout=40 if q else 600, key_extra=lambda c: {"has_symbolic_column": str(int(c[10] != 0))}, qtimeout_ms=5000 if q else 60000, env=CPLX_ENV if prec in "zc" else None,
                   bounds="structurally nonsingular patterns n<=6 (10 thorough) incl. zero diagonal; drop settings {default, disabled, aggressive}; MILU variants; NOROWPERM / LargeDiag_MC64; NOTRANS/TRANS; symbolic B, concrete or partly/fully symbolic A")
 
 
